@@ -204,10 +204,12 @@ pub fn gen_writes(rng: &mut Rng) -> Vec<Vec<u8>> {
     let n = rng.below(6) as usize;
     (0..n)
         .map(|_| {
-            let len = match rng.below(8) {
+            let len = match rng.below(12) {
                 0 | 1 => 0,
                 2 => rng.range(8190, 8200) as usize,
                 3 => rng.range(9000, 20000) as usize,
+                // single writes around and beyond 32 KiB / 64 KiB / 128 KiB
+                4 => *rng.pick(&[32767usize, 32768, 32769, 40000, 65535, 65536, 65537, 70000, 131073, 200000]),
                 _ => rng.range(1, 40) as usize,
             };
             rng.bytes(len)
@@ -222,7 +224,7 @@ pub fn gen_body(rng: &mut Rng) -> BodyR {
         2 => BodyR::Bytes({ let n = rng.below(300) as usize; rng.bytes(n) }),
         3 => BodyR::File({ let n = *rng.pick(&[0usize, 5, 8191, 8192, 8193, 20000]); rng.bytes(n) }),
         4 => BodyR::Json(format!("{{\"k\":{},\"s\":\"{}\",\"a\":[1,2,null,true]}}", rng.below(1000), gen_string(rng, 6).replace(['"', '\\'], ""))),
-        5 => BodyR::JsonStreaming(format!("{{\"k\":{},\"big\":\"{}\"}}", rng.below(1000), "x".repeat(*rng.pick(&[0usize, 10, 9000])))),
+        5 => BodyR::JsonStreaming(format!("{{\"k\":{},\"big\":\"{}\"}}", rng.below(1000), "x".repeat(*rng.pick(&[0usize, 10, 9000, 40000, 70000])))),
         6 => BodyR::Form((0..rng.below(4)).map(|_| (gen_string(rng, 6), gen_string(rng, 8))).collect()),
         7 => BodyR::Multipart {
             texts: (0..rng.range(0, 2)).map(|i| (format!("t{}", i), gen_string(rng, 10))).collect(),
